@@ -33,7 +33,10 @@ ObsMatches(o) ==
 
 \* events outside the domain ModelSM specifies (never a rejection)
 OutOfDomain(e) ==
-  \/ e.op \in {"AddAsset", "AddAssociation", "AddAttacker"} /\ e.h \in Known        \* the same object added again
+  \* an object this model already knows: specified only when it is one the caller got back and did not alter meanwhile
+  \/ e.op = "AddAsset" /\ e.h \in Known /\ ~(IsBackAsset(e.h) /\ vGone[e.h].type = e.T /\ vGone[e.h].name = e.reqName)
+  \/ e.op = "AddAssociation" /\ e.h \in Known /\ ~(IsBackAssoc(e.h) /\ vGone[e.h].cls = e.cls /\ vGone[e.h].l = e.l /\ vGone[e.h].r = e.r)
+  \/ e.op = "AddAttacker" /\ e.h \in Known /\ ~(IsBackAtk(e.h) /\ vGone[e.h].name = e.reqName /\ vGone[e.h].ep = e.ep)
   \/ e.op = "AddAssociation" /\ (Range(e.l) \cup Range(e.r)) \ LiveH # {}            \* members that are not in the model
   \/ e.op = "AddAssociation" /\ (e.l = <<>> \/ e.r = <<>>)
   \/ e.op = "AddAttacker" /\ e.reqId # NoId /\ e.reqId \in AtkIds
